@@ -1,12 +1,14 @@
 #!/bin/bash
+# usage: [JOBS=n] [IPLCHECK=binary] neutral_check.sh [--tests]
 # For every neutral (behaviour-preserving) patch: it must compile, pass the existing suite, and every check must stay silent.
 export GOFLAGS=-mod=mod GOPROXY=off GOSUMDB=off GOTOOLCHAIN=local
 unset GOWORK
-for pt in /verif/mutants/neutral-*.patch; do
+one() {
+  pt=$1; shift
   D=$(mktemp -d /tmp/verif-neutral.XXXXXX)
   rsync -a --exclude .git /repo/ "$D/"
-  if ! (cd "$D" && patch -p1 -s < "$pt"); then echo "$(basename $pt): PATCH-FAILED"; rm -rf "$D"; continue; fi
-  if ! (cd "$D" && go build ./... 2> "$D/.build.err"); then echo "$(basename $pt): BUILD-FAILED $(head -3 $D/.build.err)"; rm -rf "$D"; continue; fi
+  if ! (cd "$D" && patch -p1 -s < "$pt"); then echo "$(basename $pt): PATCH-FAILED"; rm -rf "$D"; return; fi
+  if ! (cd "$D" && go build ./... 2> "$D/.build.err"); then echo "$(basename $pt): BUILD-FAILED $(head -3 $D/.build.err)"; rm -rf "$D"; return; fi
   t="skipped"
   if [ "${1:-}" = "--tests" ]; then
     if (cd "$D" && go test -mod=mod -vet=off -count=1 -timeout 25m ./... > "$D/.test.log" 2>&1); then t="suite-pass"; else t="SUITE-FAIL"; fi
@@ -15,4 +17,6 @@ for pt in /verif/mutants/neutral-*.patch; do
   bad=$(echo "$out" | grep -E "^\s+(violated|undecided)|CHECKER-" )
   if [ -z "$bad" ]; then echo "$(basename $pt): silent ($t)"; else echo "$(basename $pt): ALARM ($t)"; echo "$bad" | cut -c1-260; fi
   rm -rf "$D"
-done
+}
+if [ "${1:-}" = "--one" ]; then pt=$2; shift 2; o=$(one "$pt" "$@"); printf '%s\n' "$o"; exit 0; fi
+ls /verif/mutants/neutral-*.patch | xargs -P "${JOBS:-1}" -I{} "$0" --one {} "$@" | awk '/^neutral-/{k=$1} {print k "\t" $0}' | sort -s -k1,1 | cut -f2-
